@@ -50,14 +50,14 @@ METHODS = [
     ("pad", "pad"), ("set_channel", "setChannel"), ("split", "split"),
     ("quantise", "quantise"), ("quantise_note_lengths", "quantiseNoteLengths"),
     ("quantise_and_normalise", "quantiseAndNormalise"), ("scale", "scale"), ("transpose", "transpose"),
-    ("get_sequence_duration", "getSequenceDuration"), ("is_empty", "isEmpty"),
+    ("get_sequence_duration", "getSequenceDuration"), ("is_empty", "isEmpty"), ("equals", "equals"),
 ]
 LEAN_OF = dict(METHODS)
 
 # parameter types by (annotation text | name); `None` default turns T into `Option T`
 ANNOT_TYPES = {"int": "Int", "bool": "Bool", "list[int]": "List Int", "list[Message]": "List Msg",
                "list[Sequence]": "List Seq", "list[RelativeSequence]": "List (List Msg)",
-               "list[AbsoluteSequence]": "List (List Msg)", "Message": "Msg", "list": "List Msg"}
+               "list[AbsoluteSequence]": "List (List Msg)", "Message": "Msg", "list": "List Msg", "object": "Seq"}
 NAME_TYPES = {"msg": "Msg", "index": "Nat", "maximum_length": "Int", "reduced_length": "Int", "padding_length": "Int",
               "factor": "Int", "note_values": "List Int", "standard_length": "Int", "do_not_extend": "Bool",
               "meta_sequence": "Seq", "quantise_afterwards": "Bool", "step_sizes": "List Int", "capacities": "List Int"}
@@ -70,6 +70,7 @@ VIEW_LINKS = {
     ("rel", "pad"): "Unit", ("rel", "set_channel"): "Unit", ("rel", "split"): "List (List Msg)",
     ("rel", "scale"): "Unit", ("rel", "transpose"): "Bool", ("abs", "quantise"): "Unit",
     ("abs", "quantise_note_lengths"): "Unit", ("abs", "get_sequence_duration"): "Int", ("rel", "is_empty"): "Bool",
+    ("abs", "equals"): "Bool",
 }
 # pure conversions: view -> other view
 CONVERSIONS = {("rel", "to_absolute_sequence"): "View.rel_to_absolute_sequence",
@@ -132,6 +133,8 @@ class MethodTranslator:
             t = self.fresh("r")
             self.emit(ind, f"let {t} ← {getter} e self_")
             self.emit(ind, f"self_ := {t}.1")
+            # the object the property handed out is the one the method is then called on: it must be the view it is named after
+            self.emit(ind, f"if {t}.2 != self_.{n.attr} then throw Err.fuel      -- the property returned another object than its own view")
             return n.attr, f"self_.{n.attr}", lambda v: f"self_ := {{ self_ with {n.attr} := {v} }}"
         if self.is_self_attr(n) and n.attr in ("_abs", "_rel"):
             f = FIELD[n.attr]
@@ -177,6 +180,11 @@ class MethodTranslator:
             return self.lname(n.id), self.types[n.id]
         if self.is_self_attr(n) and n.attr in ("_abs_stale", "_rel_stale"):
             return f"self_.{FIELD[n.attr]}", "Bool"
+        if isinstance(n, ast.Attribute) and isinstance(n.value, ast.Name) and self.types.get(n.value.id) == "Seq" and n.attr in ("abs", "rel"):
+            getter = "getAbs" if n.attr == "abs" else "getRel"
+            t = self.fresh("o")
+            self.emit(ind, f"let {t} ← {getter} e {self.lname(n.value.id)}      -- (the argument's refreshed cache is not written back)")
+            return f"{t}.2", "List Msg"
         if isinstance(n, ast.UnaryOp) and isinstance(n.op, ast.Not):
             v, t = self.expr(n.operand, ind)
             if t != "Bool":
@@ -212,7 +220,7 @@ class MethodTranslator:
                 and elt.value.id == var and elt.attr in ("abs", "rel"):
             getter = "getAbs" if elt.attr == "abs" else "getRel"
             t = self.fresh("vs")
-            self.emit(ind, f"let {t} ← {it}.mapM (fun x => do let r ← {getter} e x; pure r.1.{elt.attr})")
+            self.emit(ind, f"let {t} ← {it}.mapM (fun x => do let r ← {getter} e x; pure r.2)")
             return t, "List (List Msg)"
         # [Sequence(relative_sequence=seq.copy()) for seq in relative_sequences]
         if it_t == "List (List Msg)" and isinstance(elt, ast.Call) and isinstance(elt.func, ast.Name) \
@@ -343,6 +351,9 @@ class MethodTranslator:
                     self.assign_local(tgt.id, v, t, ind)
                 else:
                     raise Untranslatable(f"assignment target {unparse(tgt)}")
+            elif isinstance(s, ast.If) and ast.unparse(s.test).startswith("not isinstance(") and not s.orelse \
+                    and len(s.body) == 1 and isinstance(s.body[0], ast.Return):
+                self.emit(ind, "pure ()", src + "   (holds by typing: the parameter is a Sequence)")
             elif isinstance(s, ast.If):
                 c, t = self.expr(s.test, ind)
                 if t != "Bool":
@@ -363,7 +374,7 @@ class MethodTranslator:
                 if s.value is None:
                     v, t = "()", "Unit"
                 elif self.is_self_attr(s.value) and s.value.attr in ("_abs", "_rel"):
-                    v, t = "()", "Unit"      # property getter: the view is read from the returned state
+                    v, t = f"self_.{FIELD[s.value.attr]}", "List Msg"      # property getter: the view object it hands out
                 else:
                     v, t = self.expr(s.value, ind)
                     if t in ("AbsView", "RelView"):
@@ -468,7 +479,53 @@ def class_methods(path, cls):
     raise Untranslatable(f"class {cls} not found in {path}")
 
 
+# Functions the translation relies on as CONVENTIONS without translating them (a view object is its message list; `<view>.copy()` and
+# `Message.copy()` are the identity on values; `Sequence(...)` sets the flags by which views are given).  Their source is pinned: the
+# normalised AST of each body must be what it was when the convention was written down; any edit makes generation fail loudly.
+PINNED = {
+    ("scoda/sequences/abstract_sequence.py", "AbstractSequence", "__init__"):
+        "super().__init__()|self._messages = []|if messages is not None:\n    self._messages.extend(messages)",
+    ("scoda/sequences/abstract_sequence.py", "AbstractSequence", "copy"):
+        "cpy = self.__class__(messages=[msg.copy() for msg in self._messages])|return cpy",
+    ("scoda/sequences/absolute_sequence.py", "AbsoluteSequence", "__init__"): "super().__init__(messages=messages)",
+    ("scoda/sequences/relative_sequence.py", "RelativeSequence", "__init__"): "super().__init__(messages=messages)",
+}
+ALLOWED_DECORATORS = {"property", "staticmethod"}
+
+
+def body_text(fn):
+    return "|".join(ast.unparse(s) for s in fn.body
+                    if not (isinstance(s, ast.Expr) and isinstance(s.value, ast.Constant) and isinstance(s.value.value, str)))
+
+
+def check_pinned(pinned=None):
+    for (path, cls, meth), want in (pinned or PINNED).items():
+        fns = class_methods(os.path.join(REPO, path), cls)
+        if meth not in fns:
+            raise Untranslatable(f"pinned convention {cls}.{meth} not found")
+        got = body_text(fns[meth])
+        if got != want:
+            raise Untranslatable(f"pinned convention {cls}.{meth} changed: {got!r} (expected {want!r})")
+        check_decorators(fns[meth], f"{cls}.{meth}")
+
+
+def check_decorators(fn, what):
+    for d in fn.decorator_list:
+        if ast.unparse(d) not in ALLOWED_DECORATORS:
+            raise Untranslatable(f"{what} carries the decorator @{ast.unparse(d)}: a decorator can change what a call does (caching, wrapping)")
+
+
+def defaults_of(cls, fn):
+    """'Class.method(param=default source)' for every defaulted parameter: pinned by a theorem in the tie file"""
+    args = fn.args.args
+    defs = [None] * (len(args) - len(fn.args.defaults)) + list(fn.args.defaults)
+    out = [f"{cls}.{fn.name}({a.arg}={ast.unparse(d)})" for a, d in zip(args, defs) if d is not None]
+    out += [f"{cls}.{fn.name}({a.arg}={ast.unparse(d)})" for a, d in zip(fn.args.kwonlyargs, fn.args.kw_defaults) if d is not None]
+    return out
+
+
 def gen_wrap_fns_ctx():
+    check_pinned()
     seq = class_methods(os.path.join(REPO, "scoda/sequences/sequence.py"), "Sequence")
     views = {"abs": class_methods(os.path.join(REPO, "scoda/sequences/absolute_sequence.py"), "AbsoluteSequence"),
              "rel": class_methods(os.path.join(REPO, "scoda/sequences/relative_sequence.py"), "RelativeSequence")}
@@ -476,15 +533,23 @@ def gen_wrap_fns_ctx():
     for (kind, meth) in VIEW_LINKS:
         if meth not in views[kind]:
             raise Untranslatable(f"{VIEW_CLASS[kind]}.{meth} not found")
-        ctx.view_sigs[(kind, meth)] = signature(views[kind][meth])
+        ctx.view_sigs[(kind, meth)] = [(n_, d_, "List Msg" if t_ == "Seq" else t_) for (n_, d_, t_) in signature(views[kind][meth])]
     ctx.wrapper_sigs = {}
     ret_types = {}
     out = []
     missing = [m for m, _ in METHODS if m not in seq]
     if missing:
         raise Untranslatable(f"Sequence methods not found: {missing}")
+    defaults = []
+    for (kind, meth) in VIEW_LINKS:
+        check_decorators(views[kind][meth], f"{VIEW_CLASS[kind]}.{meth}")
+        defaults += defaults_of(VIEW_CLASS[kind], views[kind][meth])
+    for (kind, meth) in CONVERSIONS:
+        check_decorators(views[kind][meth], f"{VIEW_CLASS[kind]}.{meth}")
     for py, lean in METHODS:
         fn = seq[py]
+        check_decorators(fn, f"Sequence.{py}")
+        defaults += defaults_of("Sequence", fn)
         sig = signature(fn)
         ctx.wrapper_sigs[py] = sig
         mt = MethodTranslator(fn, ctx, ret_types)
@@ -504,6 +569,8 @@ def gen_wrap_fns_ctx():
         "",
     ]
     names = "def translated : List String := [" + ", ".join(f'"{p}"' for p, _ in METHODS) + "]\n"
+    names += "\n/-- every default argument of the translated and linked methods, as written in the source -/\n"
+    names += "def defaults : List String := [" + ", ".join('"' + d.replace('"', "'") + '"' for d in defaults) + "]\n"
     return "\n".join(head) + "\n" + "\n".join(out) + "\n" + names + "\nend SCoda.Gen.Wrap\n", ctx, ret_types
 
 
